@@ -1,6 +1,7 @@
 package main
 
 import (
+	"encoding/json"
 	"fmt"
 	"math/rand"
 	"os"
@@ -123,6 +124,14 @@ func (namesStream) Execute(c Case) {
 			_ = os.MkdirAll(dirs[0], 0o755)
 			_ = os.WriteFile(filepath.Join(dirs[0], "other.json"), []byte(`{"cdiVersion":"0.6.0","kind":"other.com/x","devices":[{"name":"d","containerEdits":{"env":["X=y"]}}]}`), 0o644)
 			_ = os.WriteFile(filepath.Join(namesRoot, "outside.txt"), []byte("keep"), 0o644)
+			if len(cleaned) >= 2 && cleaned[0] != cleaned[len(cleaned)-1] {
+				// two files of the first (lower priority) directory define the very device that is about to be
+				// written into the last one: their conflict must not hide the higher-priority definition
+				for _, fn := range []string{"conflict-a.json", "conflict-b.json"} {
+					b, _ := json.Marshal(namesSpec(vendor, class))
+					_ = os.WriteFile(filepath.Join(dirs[0], fn), b, 0o644)
+				}
+			}
 		}
 		cache, _ := cdi.NewCache(cdi.WithSpecDirs(dirs...), cdi.WithAutoRefresh(false))
 		if pre, _ := c["preexisting"].(bool); pre && !lastMissing {
